@@ -1901,29 +1901,194 @@ def betweenness_checks(ctx, cases, quick):
 # CoupledClimateNetwork wrappers: layers = (0..N1-1), (N1..N-1)
 # --------------------------------------------------------------------------
 
+CCN_PAIR = {"number_internal_links", "internal_link_density", "internal_global_clustering",
+            "cross_global_clustering", "cross_transitivity", "internal_average_path_length",
+            "internal_average_path_length(la)", "cross_degree", "internal_degree",
+            "cross_local_clustering", "cross_closeness", "cross_closeness(la)",
+            "internal_closeness", "internal_closeness(la)", "cross_betweenness",
+            "internal_betweenness_1", "internal_betweenness_2"}
+CCN_LA = {"path_lengths_1(la)", "path_lengths_2(la)", "cross_path_lengths(la)",
+          "cross_average_path_length(la)", "internal_average_path_length(la)",
+          "cross_closeness(la)", "internal_closeness(la)"}
+CCN_F32 = {"cross_average_link_distance", "cross_average_link_distance(reverse)"}
+
+
+def ccn_impl_results(ccn, has_links):
+    """every public layer wrapper of a CoupledClimateNetwork, canonicalised (round 5: the
+    implementation side of the correspondence with the Lean model `Pyunicorn.CrossCCN`)"""
+    def q(thunk):
+        try:
+            with warnings.catch_warnings():
+                warnings.simplefilter("ignore")
+                with np.errstate(all="ignore"):
+                    with contextlib.redirect_stdout(io.StringIO()):
+                        v = thunk()
+        except Exception as e:  # noqa
+            return "raise:" + type(e).__name__
+        if isinstance(v, tuple):
+            return tuple(canon_impl(x) for x in v)
+        return canon_impl(v)
+    r = {
+        "nodes_1": q(lambda: np.array(ccn.nodes_1, dtype=np.int64)),
+        "nodes_2": q(lambda: np.array(ccn.nodes_2, dtype=np.int64)),
+        "adjacency_1": q(ccn.adjacency_1), "adjacency_2": q(ccn.adjacency_2),
+        "cross_layer_adjacency": q(ccn.cross_layer_adjacency),
+        "similarity_measure_1": q(ccn.similarity_measure_1),
+        "similarity_measure_2": q(ccn.similarity_measure_2),
+        "cross_similarity_measure": q(ccn.cross_similarity_measure),
+        "path_lengths_1": q(ccn.path_lengths_1), "path_lengths_2": q(ccn.path_lengths_2),
+        "cross_path_lengths": q(ccn.cross_path_lengths),
+        "cross_link_distance": q(ccn.cross_link_distance),
+        "cross_average_link_distance": q(ccn.cross_average_link_distance),
+        "cross_average_link_distance(reverse)":
+            q(lambda: ccn.cross_average_link_distance(reverse=True)),
+        "number_cross_layer_links": q(ccn.number_cross_layer_links),
+        "number_internal_links": q(ccn.number_internal_links),
+        "cross_link_density": q(ccn.cross_link_density),
+        "internal_link_density": q(ccn.internal_link_density),
+        "internal_global_clustering": q(ccn.internal_global_clustering),
+        "cross_global_clustering": q(ccn.cross_global_clustering),
+        "cross_transitivity": q(ccn.cross_transitivity),
+        "cross_average_path_length": q(ccn.cross_average_path_length),
+        "internal_average_path_length": q(ccn.internal_average_path_length),
+        "cross_degree": q(ccn.cross_degree), "internal_degree": q(ccn.internal_degree),
+        "cross_local_clustering": q(ccn.cross_local_clustering),
+        "cross_closeness": q(ccn.cross_closeness),
+        "internal_closeness": q(ccn.internal_closeness),
+        "cross_betweenness": q(ccn.cross_betweenness),
+        "internal_betweenness_1": q(ccn.internal_betweenness_1),
+        "internal_betweenness_2": q(ccn.internal_betweenness_2)}
+    if has_links:
+        r.update({
+            "path_lengths_1(la)": q(lambda: ccn.path_lengths_1("la")),
+            "path_lengths_2(la)": q(lambda: ccn.path_lengths_2("la")),
+            "cross_path_lengths(la)": q(lambda: ccn.cross_path_lengths("la")),
+            "cross_average_path_length(la)": q(lambda: ccn.cross_average_path_length("la")),
+            "internal_average_path_length(la)":
+                q(lambda: ccn.internal_average_path_length("la")),
+            "cross_closeness(la)": q(lambda: ccn.cross_closeness("la")),
+            "internal_closeness(la)": q(lambda: ccn.internal_closeness("la"))})
+    return r
+
+
+def same_f32(impl, exact):
+    """entries computed by the library in float32 (sums of angular distances): relative 1e-5"""
+    if isinstance(impl, str) or isinstance(exact, str):
+        return impl == exact
+    if len(impl) != len(exact):
+        return False
+    for ri, re_ in zip(impl, exact):
+        if len(ri) != len(re_):
+            return False
+        for x, qv in zip(ri, re_):
+            if qv == "nan":
+                if not (isinstance(x, float) and math.isnan(x)):
+                    return False
+            elif not (isinstance(x, float) and
+                      abs(x - float(qv)) <= 1e-5 * max(2.0 ** -40, abs(float(qv)))):
+                return False
+    return True
+
+
+def ccn_same(nm, impl, model):
+    """canonical implementation result of wrapper `nm` against the model's answer string"""
+    cmp_ = same_f32 if nm in CCN_F32 else same
+    if nm in CCN_PAIR:
+        if model.startswith("raise:") or isinstance(impl, str):
+            return impl == model
+        parts = model.split("&")
+        return isinstance(impl, tuple) and len(impl) == 2 and len(parts) == 2 and all(
+            cmp_(i_, parse_model(m_)) for i_, m_ in zip(impl, parts))
+    if isinstance(impl, tuple):
+        return False
+    pm = parse_model(model)
+    if nm in CCN_F32 and model == "nan":
+        pm = [["nan"]]        # a one-node layer without cross link: the vector [nan]
+    if nm in ("nodes_1", "nodes_2") and pm == [] and impl == [[]]:
+        return True
+    return cmp_(impl, pm)
+
+
+def ccn_correspondence(ctx, todo):
+    """round 5: the Lean model `Pyunicorn.CrossCCN` of every layer wrapper of
+    CoupledClimateNetwork (request `ccn`) against the wrappers of the very objects the oracle's
+    wrapper histories ran on"""
+    if not todo:
+        return
+    model = common.driver(ctx.pid, [t[0] for t in todo])
+    bad, ncmp = [], 0
+    for (req, res, meta), ans in zip(todo, model):
+        got = dict(kv.split("=", 1) for kv in ans.split("|")) if "=" in ans else {}
+        for nm, iv in res.items():
+            if "directed=True" in meta and nm == "internal_global_clustering":
+                continue   # Network.local_clustering of a directed network: not C03's model
+            ncmp += 1
+            if nm not in got or not ccn_same(nm, iv, got[nm]):
+                bad.append((nm, meta, got.get(nm, ans)[:160], str(iv)[:160]))
+    ctx.count("ccn:wrapper-results-compared-with-model", ncmp)
+    ctx.extra["ccn_wrapper_results_compared"] = ncmp
+    ctx.obligation(f"correspondence: Lean model CrossCCN (nodes_1 / nodes_2, slices, every layer "
+                   f"wrapper incl. link_attribute and reverse arguments) == CoupledClimateNetwork "
+                   f"({ncmp} results on {len(todo)} coupled networks, directed ones included)",
+                   "correspondence", not bad,
+                   "\n".join(f"{nm} {meta} :: model={mv} impl={iv}" for nm, meta, mv, iv in bad[:6]))
+
+
 def ccn_checks(ctx, quick):
     from pyunicorn.climate import CoupledClimateNetwork
     from pyunicorn.core import GeoGrid
     rng = ctx.rng
-    for _ in range(6 if quick else 40):
-        N1 = rng.randrange(1, 5)
-        N2 = rng.randrange(1, 5)
+    todo = []
+    kinds = ["random"] * (7 if quick else 48) + ["no-cross-links", "empty", "complete",
+                                                 "one-cross-link", "layer-2-isolated"]
+    if not quick:
+        kinds += ["no-cross-links", "one-cross-link", "layer-2-isolated"] * 3
+    for kind in kinds:
+        N1 = rng.randrange(1, 7)
+        N2 = rng.randrange(1, 7)
         n = N1 + N2
         if n < 3:
             N2 += 1
             n += 1
+        directed = kind == "random" and rng.random() < 0.3
         t = np.arange(4.0)
         g1 = GeoGrid(t, np.array([10.0 * k for k in range(N1)]),
                      np.array([5.0 * k for k in range(N1)]), silence_level=3)
         g2 = GeoGrid(t, np.array([-40.0 + 7.0 * k for k in range(N2)]),
                      np.array([100.0 + 3.0 * k for k in range(N2)]), silence_level=3)
-        p = rng.choice([0.3, 0.5, 0.8])
-        bits = [rng.random() < p for _ in range(n * (n - 1) // 2)]
-        A = graph_from_bits(n, bits, False)
-        S = np.where(np.array(A) == 1, 0.875, 0.125)   # exact in float32 as well
-        np.fill_diagonal(S, 1.0)
+        p = rng.choice([0.15, 0.3, 0.5, 0.8])
+        nb = n * (n - 1) if directed else n * (n - 1) // 2
+        bits = [rng.random() < p for _ in range(nb)]
+        A = graph_from_bits(n, bits, directed)
+        lay = lambda a: 0 if a < N1 else 1   # noqa
+        if kind == "empty":
+            A = [[0] * n for _ in range(n)]
+        elif kind == "complete":
+            A = [[int(a != b) for b in range(n)] for a in range(n)]
+        elif kind in ("no-cross-links", "one-cross-link"):
+            A = [[A[a][b] if lay(a) == lay(b) else 0 for b in range(n)] for a in range(n)]
+            if kind == "one-cross-link":
+                a, b = rng.randrange(N1), rng.randrange(N1, n)
+                A[a][b] = A[b][a] = 1
+        elif kind == "layer-2-isolated":
+            A = [[A[a][b] if (lay(a) == 0 and lay(b) == 0) else 0 for b in range(n)]
+                 for a in range(n)]
+        ctx.count("ccn:kind:" + kind + ("-directed" if directed else ""))
+        ctx.count(f"ccn:layers:{'N1<N2' if N1 < N2 else 'N1=N2' if N1 == N2 else 'N1>N2'}")
+        # dyadic similarities (exact in float32), away from the threshold 1/2
+        S = np.zeros((n, n))
+        for a in range(n):
+            for b in range(n):
+                if a == b:
+                    S[a, b] = 1.0
+                elif directed or b < a:
+                    S[a, b] = rng.choice([0.625, 0.75, 0.875] if A[a][b]
+                                         else [0.125, 0.25, 0.375])
+                    if not directed:
+                        S[b, a] = S[a, b]
         try:
-            ccn = CoupledClimateNetwork(g1, g2, S, threshold=0.5, silence_level=3)
+            ccn = CoupledClimateNetwork(g1, g2, S, threshold=0.5, directed=directed,
+                                        silence_level=3)
         except Exception as e:  # noqa
             ctx.count("ccn:constructor-raises:" + type(e).__name__)
             continue
@@ -1933,30 +2098,32 @@ def ccn_checks(ctx, quick):
             ctx.count("ccn:adjacency-differs-from-thresholded-similarity")
             A = Aimpl
         c = Case()
-        c.n, c.directed, c.A, c.tag = n, False, A, "ccn"
+        c.n, c.directed, c.A, c.tag = n, directed, A, "ccn"
         c.w = [Fr(1)] * n
         c.la = [[Fr(0)] * n for _ in range(n)]
         c.Du = floyd(n, [[Fr(1) if A[a][b] else None for b in range(n)] for a in range(n)])
         c.Dw, c.net = c.Du, ccn
-        o = Oracle(n, False, A, c.w, c.la, c.Du, c.Du)
         L1, L2 = list(range(N1)), list(range(N1, n))
-        ctx.case(("ccn", A, N1), any(any(r) for r in A),
-                 {"class": "CoupledClimateNetwork", "adjacency": A, "N_1": N1})
+        ctx.case(("ccn", A, N1, directed), any(any(r) for r in A),
+                 {"class": "CoupledClimateNetwork", "adjacency": A, "N_1": N1,
+                  "directed": directed})
         ctx.count("ccn:networks")
 
         # a dyadic link attribute for the wrappers' non-default `link_attribute` argument
         la = [[Fr(0)] * n for _ in range(n)]
         for a in range(n):
-            for b in range(a):
-                if A[a][b]:
-                    la[a][b] = la[b][a] = Fr(rng.randrange(1, 13), 4)
+            for b in range(n):
+                if A[a][b] and (directed or b < a):
+                    la[a][b] = Fr(rng.randrange(1, 13), 4)
+                    if not directed:
+                        la[b][a] = la[a][b]
         c.la = la
         has_links = any(any(r) for r in A)
         if has_links:
             ccn.set_link_attribute("la", np.array([[float(x) for x in r] for r in la]))
             c.Dw = floyd(n, [[la[a][b] if A[a][b] else None for b in range(n)]
                              for a in range(n)])
-        o = Oracle(n, False, A, c.w, c.la, c.Du, c.Dw)
+        o = Oracle(n, directed, A, c.w, c.la, c.Du, c.Dw)
         held1, held2 = list(ccn.nodes_1), list(ccn.nodes_2)
 
         def both(name, *extra):
@@ -2050,6 +2217,11 @@ def ccn_checks(ctx, quick):
                 ("internal_closeness(la)", lambda: ccn.internal_closeness(link_attribute="la"),
                  both("internal_closeness", D)),
             ]
+        if directed:
+            # triangle-based measures have no documented directed definition; the betweenness
+            # delegates raise AssertionError there (model-implementation correspondence below)
+            table = [t_ for t_ in table if not any(k in t_[0] for k in (
+                "clustering", "transitivity", "betweenness"))]
         rng.shuffle(table)
         for nm, f, exp in table:
             ctx.count("ccn:wrapper-calls")
@@ -2090,3 +2262,13 @@ def ccn_checks(ctx, quick):
                      "nodes_1 / nodes_2 / adjacency held by the CoupledClimateNetwork changed "
                      "during a history of wrapper calls",
                      {"adjacency": A, "N_1": N1, "N_2": N2})
+        # round 5: the same object once more, now against the Lean model of the wrappers
+        G = np.asarray(ccn.distance(), dtype=float)
+        Sfull32 = np.asarray(ccn.similarity_measure(), dtype=float)
+        req = " ".join(["ccn", "1" if directed else "0", str(N1), str(n), enc_mat(A),
+                        enc_mat(c.Du), enc_mat(c.Dw),
+                        enc_mat([[Fr(float(x)) for x in r] for r in G.tolist()]),
+                        enc_mat([[Fr(float(x)) for x in r] for r in Sfull32.tolist()])])
+        todo.append((req, ccn_impl_results(ccn, has_links),
+                     f"N_1={N1} N_2={N2} directed={directed} A={enc_mat(A)}"))
+    ccn_correspondence(ctx, todo)
